@@ -66,6 +66,38 @@ where
     pub(crate) fn progress_yielded_counter(&self, num_yielded: usize) -> usize {
         self.yielded_counter.fetch_and_add(num_yielded)
     }
+
+    /// Guard to be held while the wrapped iterator is being used: if the use unwinds (the iterator's `next` panics),
+    /// the concurrent iterator is marked as completed so that the threads waiting for their turn stop waiting.
+    #[inline(always)]
+    pub(crate) fn complete_on_unwind(&self) -> CompleteOnUnwind<'_> {
+        CompleteOnUnwind {
+            completed: &self.completed,
+            armed: true,
+        }
+    }
+}
+
+/// Marks the concurrent iterator as completed when dropped while still armed, i.e., during unwinding.
+pub(crate) struct CompleteOnUnwind<'a> {
+    completed: &'a AtomicBool,
+    armed: bool,
+}
+
+impl CompleteOnUnwind<'_> {
+    #[inline(always)]
+    pub(crate) fn disarm(mut self) {
+        self.armed = false;
+    }
+}
+
+impl Drop for CompleteOnUnwind<'_> {
+    #[inline(always)]
+    fn drop(&mut self) {
+        if self.armed {
+            self.completed.store(true, atomic::Ordering::SeqCst);
+        }
+    }
 }
 
 impl<T: Send + Sync, Iter> From<Iter> for ConIterOfIter<T, Iter>
@@ -123,7 +155,9 @@ where
                 // item_idx==yielded_count => it is our job to provide the item
                 Ordering::Equal => {
                     // SAFETY: no other thread has the valid condition to iterate, they are waiting
+                    let guard = self.complete_on_unwind();
                     let next = unsafe { self.mut_iter() }.next();
+                    guard.disarm();
                     match next.is_some() {
                         true => {
                             _ = self.yielded_counter.fetch_and_increment();
@@ -154,11 +188,13 @@ where
             // SAFETY: no other thread has the valid condition to iterate, they are waiting
             let iter = unsafe { self.mut_iter() };
             let end_idx = begin_idx.saturating_add(n);
+            let guard = self.complete_on_unwind();
             let buffer = (begin_idx..end_idx)
                 .map(|_| iter.next())
                 .take_while(|x| x.is_some())
                 .map(|x| x.expect("is_some is checked"))
                 .collect::<Vec<_>>();
+            guard.disarm();
 
             match buffer.len() {
                 0 => {
